@@ -1052,8 +1052,10 @@ class StubsStringGenerator:
         if (qname_parts[0] == "builtins" and len(qname_parts) == 2) or import_qname == "typing.Any":
             return
 
+        # The stub of a re-exported element contains only that element, while the actual id is the id of the whole
+        # package which re-exports it, so there we have to check every class
         module_id = self._get_module_id(get_actual_id=True).replace("/", ".")
-        if not import_qname.startswith(f"{module_id}."):
+        if self.currently_creating_reexport_data or not import_qname.startswith(f"{module_id}."):
             # We need the full path for an import from the same package, but we sometimes don't get enough information,
             # therefore we have to search for the class and get its id
             import_qname_path = import_qname.replace(".", "/")
